@@ -247,4 +247,4 @@ def replay(path, seed):
                       key=lambda k: (-inp["tests"][k][2], py_components(inp["tests"][k][0]), inp["tests"][k][1]))
         print("impl:", got, "documented:", want)
         return 1 if got != want else 0
-    return 0
+    return 2   # not a kind of record this function knows how to replay (the driver then re-runs the check)
